@@ -63,8 +63,9 @@ class Ref:
 
 
 class CallGraph:
-    def __init__(self, model):
+    def __init__(self, model, repr_dispatch=False):
         self.model = model
+        self.repr_dispatch = repr_dispatch
         self.by_method = {}          # method name -> [Func]
         for c in model.classes.values():
             for m in c.methods.values():
@@ -154,6 +155,17 @@ class CallGraph:
                 r = self._resolve_chain(func, module, locs, inner_imports, d, n, call)
                 if r:
                     out.append(r)
+        if self.repr_dispatch:
+            # str(x) / repr(x) / format(x) / f"{x}" / "%s" % x run the __repr__ / __str__ of whatever x is
+            for n in ast.walk(func.node):
+                if isinstance(n, ast.Call) and isinstance(n.func, ast.Name) and n.func.id in ("str", "repr", "format") \
+                        and n.args and n.func.id not in locs:
+                    if not isinstance(n.args[0], ast.Constant):
+                        out.append(Ref("dispatch", "__repr__", n, True, n))
+                        out.append(Ref("dispatch", "__str__", n, True, n))
+                elif isinstance(n, ast.FormattedValue) and not isinstance(n.value, ast.Constant):
+                    out.append(Ref("dispatch", "__repr__", n, True, None))
+                    out.append(Ref("dispatch", "__str__", n, True, None))
         self._refs[func] = out
         return out
 
